@@ -86,6 +86,19 @@ def r2(ctx):
 
     awaited = all(_reaches_await(n) for n, _ in sleeps + sends)
     ctx.check(bool(sends) and in_loop and awaited, R, "_heartbeat_loop:sends-every-iteration", m, hl.node, "each iteration awaits the sleep and _send_heartbeat_message()", "send or sleep missing from the loop body / not awaited")
+    # the period is the interval itself: the sleep runs concurrently with the send (both handed to one gather / wait), so the
+    # time a send spends in a slow drain() is not added to every period (a coroutine object does not start before it is awaited)
+    conc = False
+    for n, c in hl.calls_pred(lambda d: d in ("asyncio.gather", "asyncio.wait")):
+        if not n.awaits:
+            continue
+        texts = []
+        for a_ in c.args:
+            e_ = hl.expand(a_, n)
+            texts += [norm_text(x) for x in ast.walk(e_) if isinstance(x, ast.Call)]
+        if any(t.startswith("asyncio.sleep(") for t in texts) and any(t.startswith("self._send_heartbeat_message(") for t in texts):
+            conc = True
+    ctx.check(conc, R, "_heartbeat_loop:sleep-and-send-concurrent", m, hl.node, "one awaited asyncio.gather(...) runs the interval sleep and the send together: requests are `interval` apart", "the sleep and the send are awaited one after the other: every period is lengthened by the time the send takes (a 40 s drain makes a 300 s interval 340 s, beyond the 330 s deadline)")
     sh = fn_of(ctx, HEARTBEAT, "HeartbeatManager._send_heartbeat_message")
     snd = sh.calls("self._socket.send")
     ts = sh.tests(lambda e: dotted(e) == "self._socket.is_connected")
@@ -244,6 +257,16 @@ def r5(ctx):
     R = "C08.R5"
     st = fn_of(ctx, HEARTBEAT, "HeartbeatManager.start")
     m = st.module
+    # who may stop the monitor: only shutdown().  stop() cancels both heartbeat tasks - and the timeout task is the one that
+    # runs reset_connection(); a connection subscriber (called from inside that reset) that stops the heartbeat cancels the reset
+    # before the reconnect is scheduled, so the link is never re-established
+    stops = package_calls(ctx.repo, lambda d: d.endswith("_heartbeat_manager.stop"))
+    bad = [(mm, q) for mm, q, c in stops if q.split(".")[-1] != "shutdown"]
+    bm = next((mm for mm, q, c in stops if q.split(".")[-1] != "shutdown"), m)
+    ctx.check(bool(stops) and not bad, R, "who-may-call:heartbeat.stop", bm, (next((c for mm, q, c in stops if q.split(".")[-1] != "shutdown"), None)), "the heartbeat manager is stopped by shutdown() only (never from a connection or message callback, which may run inside the heartbeat's own reset)", ", ".join(f"{mm.relpath}:{q}" for mm, q in bad) or "no stop call")
+    starts_ = package_calls(ctx.repo, lambda d: d.endswith("_heartbeat_manager.start"))
+    bad = [(mm, q) for mm, q, c in starts_ if q.split(".")[-1] != "_message_received"]
+    ctx.check(bool(starts_) and not bad, R, "who-may-call:heartbeat.start", m, None, "the heartbeat manager is started where the handshake reaches CONNECTED (_message_received) and nowhere else", ", ".join(f"{mm.relpath}:{q}" for mm, q in bad) or "no start call")
     created = []
     for n, c in st.calls("create_task"):
         for x in ast.walk(c):
